@@ -138,43 +138,75 @@ def _ivs(a):
 PATTERNS = 6
 
 
-def _series(rng, L, cls, noise):
-    """dyadic values (multiples of 1/8) with a class dependent shape"""
+INT_RANGES = {"int8": 127, "uint8": 255, "int16": 32767, "uint16": 65535, "int32": 2147483647, "int64": 4000}
+
+
+def _series(rng, L, cls, noise, dtype="float64"):
+    """float panels: dyadic values (multiples of 1/8) with a class dependent shape;
+    integer panels: the same shapes scaled so that the values come close to the type's range"""
     out = []
     for t in range(L):
         base = [0, 8 * ((t * 2) // max(L, 1)), (t % 4) * 4, 16 - (16 * t) // max(L, 1), 8 * (t % 2), (t * t) % 11][cls % PATTERNS]
-        out.append((base + rng.randrange(-noise, noise + 1)) / 8.0)
-    return out
+        out.append(base + rng.randrange(-noise, noise + 1))
+    if dtype in INT_RANGES:
+        hi = INT_RANGES[dtype]
+        span = 16 + 2 * noise
+        if dtype.startswith("u"):
+            return [int((v + noise) * (hi * 0.97) // span) for v in out]
+        return [int(v * (hi * 0.97) // (16 + noise)) for v in out]
+    return [v / 8.0 for v in out]
 
 
-def _panel(c):
-    """(X_train, y_train, X_test, y_test) from the case; deterministic in the case"""
+def _panel(c, cast=None):
+    """(X_train, y_train, X_test, y_test) from the case; deterministic in the case.
+    c["dtype"]: number type of the panel (the NUMBERS depend on it, `cast` only changes how they are stored);
+    c["xform"]: "nested" (DataFrame of Series cells) or "np3d"; c["pred_order"]: column order (and extra columns)
+    of the frame handed to predict."""
     rng = random.Random(c["xseed"])
     labels = c["labels"]
     distinct = sorted(set(labels), key=lambda v: (str(type(v)), v))
     ncol = c.get("ncol", 1)
     names = c.get("colnames") or ["dim_%d" % k for k in range(ncol)]
     noise = c.get("noise", 6)
+    dtype = c.get("dtype", "float64")
+    store = cast or dtype
+    if dtype in INT_RANGES:
+        noise = min(noise, 12)
 
-    def frame(lbls, dup=None):
+    def frame(lbls, dup=None, order=None):
         cols = {nm: [] for nm in names}
         rows = []
         for lab in lbls:
             k = distinct.index(lab) if lab in distinct else rng.randrange(PATTERNS)
-            rows.append([_series(rng, c["L"], k + 2 * j, noise) for j in range(len(names))])
+            rows.append([_series(rng, c["L"], k + 2 * j, noise, dtype) for j in range(len(names))])
         if dup:
             for (i, j) in dup:
                 if i < len(rows) and j < len(rows):
                     rows[j] = [list(s) for s in rows[i]]
+        if c.get("xform") == "np3d":
+            return np.array(rows, dtype=store)
         for r in rows:
-            for nm, s in zip(names, r):
-                cols[nm].append(pd.Series(s))
-        return pd.DataFrame(cols)
+            for nm, s_ in zip(names, r):
+                cols[nm].append(pd.Series(np.array(s_, dtype=store)))
+        df = pd.DataFrame(cols)
+        if order:
+            for nm in order:
+                if nm not in df.columns:                      # an extra column the ensemble knows nothing about
+                    df[nm] = [pd.Series(np.array(_series(rng, c["L"], 5, noise, dtype), dtype=store)) for _ in range(len(df))]
+            df = df[list(order)]
+        return df
     Xtr = frame(labels, c.get("dup"))
-    Xte = frame(c["ytest"])
+    Xte = frame(c["ytest"], order=c.get("pred_order"))
     ytr = _yarr(labels, c.get("yas", "np"))
     yte = _yarr(c["ytest"], "np")
     return Xtr, ytr, Xte, yte
+
+
+def _rows(X):
+    """the series of the first column as a list of lists (exact numbers)"""
+    if isinstance(X, np.ndarray):
+        return np.array([[float(v) for v in inst[0]] for inst in X])
+    return np.array([[float(v) for v in s_] for s_ in X.iloc[:, 0]])
 
 
 def _yarr(labels, how):
@@ -377,13 +409,14 @@ def _seed_global(c, salt):
     np.random.seed((c.get("gseed", 0) * 7 + salt) % (2 ** 31))
 
 
-def _hist_panels(c):
+def _hist_panels(c, cast=None):
     """the earlier (X, y) the SAME object is fitted on before the fit under observation"""
     out = []
     for h in c.get("hist") or []:
         hc = dict(c, labels=h["labels"], xseed=h["xseed"], L=h.get("L", c["L"]), ytest=h["labels"][:1], yas=h.get("yas", "np"))
         hc.pop("dup", None)
-        Xh, yh, _, _ = _panel(hc)
+        hc.pop("pred_order", None)
+        Xh, yh, _, _ = _panel(hc, cast=cast)
         if c.get("algo") == "reg":
             yh = np.array([float(v) for v in h["labels"]])
         out.append((Xh, yh))
@@ -413,6 +446,28 @@ def _fresh_reference(c, o, make, Xtr, ytr, Xte, reg=False):
     o["fresh_out"], o["fresh_out_err"] = (None if err else np.array(val)), err
 
 
+def _dtype_reference(c, o, make, Xte_unused=None, reg=False):
+    """integer panels: a NEW object fitted on the SAME numbers stored as float64 (same seeds)"""
+    if c.get("dtype", "float64") not in INT_RANGES:
+        return
+    Xtr, ytr, Xte, _ = _panel(c, cast="float64")
+    if reg:
+        ytr = np.array([float(v) for v in c["labels"]])
+    ref = make()
+    for k, (Xh, yh) in enumerate(_hist_panels(c, cast="float64")):
+        _seed_global(c, 11 + k)
+        _call(lambda: ref.fit(Xh, yh))
+    _seed_global(c, 1)
+    _, err = _call(lambda: ref.fit(Xtr, ytr))
+    o["f64_fit_err"] = err
+    if err:
+        return
+    o["f64_classes"] = None if reg else list(ref.classes_)
+    _seed_global(c, 2)
+    val, err = _call(lambda: (ref.predict(Xte) if reg else ref.predict_proba(Xte)))
+    o["f64_out"], o["f64_out_err"] = (None if err else np.array(val)), err
+
+
 def _obs_clf(c):
     Xtr, ytr, Xte, yte = _panel(c)
     algo = c["algo"]
@@ -426,6 +481,7 @@ def _obs_clf(c):
     _, err = _call(lambda: clf.fit(Xtr, ytr))
     o["fit_err"] = err
     _fresh_reference(c, o, lambda: _make(c), Xtr, ytr, Xte, reg=(algo == "reg"))
+    _dtype_reference(c, o, lambda: _make(c), reg=(algo == "reg"))
     if err:
         return o
     o["classes"] = None if algo == "reg" else list(clf.classes_)
@@ -462,7 +518,7 @@ def _obs_clf(c):
         logs = grab(lambda: clf.predict(Xte), "pred")
         o["members"] = [None if lg is None else lg[1] for lg in logs]
         o["member_inputs"] = [None if lg is None else lg[0] for lg in logs]
-        o["Xte"] = np.array([list(s) for s in Xte.iloc[:, 0]])
+        o["Xte"] = _rows(Xte)
         return o
     logs = grab(lambda: clf.predict_proba(Xte), "proba")
     o["member_raised"] = any(s.__dict__.get("raised") for s in spies)
@@ -477,7 +533,7 @@ def _obs_clf(c):
     sc, err = _call(lambda: clf.score(Xte, yte))
     o["score"], o["score_err"] = (None if err else float(sc)), err
     if algo in ("tsf", "rise", "stsf"):
-        o["Xte"] = np.array([list(s) for s in Xte.iloc[:, 0]])
+        o["Xte"] = _rows(Xte)
     return o
 
 
@@ -490,6 +546,7 @@ def _obs_indiv(c):
     _, err = _call(lambda: clf.fit(Xtr, ytr))
     o["fit_err"] = err
     _fresh_reference(c, o, lambda: _make(dict(c, algo="indiv")), Xtr, ytr, Xte)
+    _dtype_reference(c, o, lambda: _make(dict(c, algo="indiv")))
     if err:
         return o
     o["classes"] = list(clf.classes_)
@@ -511,7 +568,24 @@ def _entry_key(k):
         return [int(x) for x in v]
     if kind == "name":
         return str(v)
+    if kind == "mask":
+        return np.array([bool(x) for x in v])
+    if kind == "slice":
+        return slice(v[0], v[1])
     return [str(x) for x in v]
+
+
+def _key_positions(k, names):
+    """what a mask / slice specifier means, in positions of the training frame (for the model line and the oracle)"""
+    kind, v = k
+    if kind == "mask":
+        return [i for i, x in enumerate(v) if x]
+    a, b = v
+    if isinstance(a, str) or isinstance(b, str):                 # label slice: both ends included
+        i = 0 if a is None else names.index(a)
+        j = len(names) if b is None else names.index(b) + 1
+        return list(range(i, j))
+    return list(range(len(names)))[slice(a, b)]
 
 
 def _obs_colens(c):
@@ -542,6 +616,7 @@ def _obs_colens(c):
         return ests
     o = {"ytr": list(np.asarray(ytr)), "yte": list(yte), "n_test": len(Xte), "names": list(Xtr.columns)}
     _fresh_reference(c, o, build, Xtr, ytr, Xte)        # first: the spy log must end with the object under observation
+    _dtype_reference(c, o, build)
     _CE_LOG.clear()
     clf = build()
     _fit_history(c, clf)
@@ -591,7 +666,7 @@ def _obs_base(c):
 
 def _obs_feat(c):
     from sktime.series_as_features.base.estimators.interval_based._tsf import _transform
-    X = np.array(c["X"], dtype=float)
+    X = np.array(c["X"], dtype=c.get("dtype", "float64"))
     ivs = np.array(c["ivs"], dtype=int).reshape(-1, 2)
     out, err = _call(lambda: _transform(X, ivs))
     return {"feat": out, "err": err}
@@ -694,11 +769,11 @@ def run_real(c):
     if kind == "clf" and c["algo"] in ("cboss", "tde"):
         head = "w=%s " % show_rats(o["weights"]) + head
     if kind == "colens":
-        idx = [[o["names"].index(nm) for nm in cols] if cols is not None else None for cols in o["pred_cols"]]
+        idx = [[_pos(o["names"], nm) for nm in cols] if cols is not None else None for cols in o["pred_cols"]]
         if o["proba_err"] is None and any(i is None for i in idx):
             return "cols=E:member-not-called"
         head = "cols=%s " % ("~" if not idx else "|".join(show_ints(i) for i in (idx if o["proba_err"] is None else
-                                                                                   [[o["names"].index(nm) for nm in cols] for cols in o["fit_cols"]]))) + head
+                                                                                   [[_pos(o["names"], nm) for nm in cols] for cols in o["fit_cols"]]))) + head
     if kind == "clf" and c["algo"] == "muse":
         return head + "score=%s" % (o["score_err"] or show_rat(o["score"]))
     if kind == "base":
@@ -714,12 +789,18 @@ def run_real(c):
                                                  o["score_err"] or show_rat(o["score"]))
 
 
+def _pos(names, nm):
+    return names.index(nm) if nm in names else 99
+
+
 def _labrows(members):
     return "_" if not members else ";".join(_labs(m) for m in members)
 
 
-def _show_key(k):
+def _show_key(k, names=None):
     kind, v = k
+    if kind in ("mask", "slice"):
+        return "K" + show_ints(_key_positions(k, names))
     if kind == "int":
         return "k%d" % v
     if kind == "ints":
@@ -742,14 +823,16 @@ def to_line(c):
         return "C17 tsfit %d %d %d %s" % (c["L"], 3 if c.get("m") is None else c["m"], c["nest"],
                                          show_ints([r for (lo, h, r) in o["calls"]]))
     if kind == "colens":
-        ent = ";".join(("d:" if d else "e:") + _show_key(k) for (d, k, _) in c["entries"])
-        names = ",".join(c.get("colnames") or ["dim_%d" % k for k in range(c.get("ncol", 1))])
+        nlist = c.get("colnames") or ["dim_%d" % k for k in range(c.get("ncol", 1))]
+        ent = ";".join(("d:" if d else "e:") + _show_key(k, nlist) for (d, k, _) in c["entries"])
+        names = ",".join(nlist)
         if o.get("fit_err"):
             mem = "~"
         else:
             mem = _mats([m for m in o["members"] if m is not None])
         return "C17 colens %s %s %s %s %s" % (_labs(_yl(c["labels"])), names, ent, mem, _labs(_yl(c["ytest"])))
-    if kind == "bossfit" or (o.get("fit_err") and kind == "clf" and c["algo"] in ("boss", "cboss", "tde")):
+    if kind == "bossfit" or (o.get("fit_err") and kind == "clf" and c["algo"] in ("boss", "cboss", "tde")
+                             and c.get("dtype", "float64") not in INT_RANGES):
         return "C17 bossfit %d %d" % (c["L"], c.get("params", {}).get("min_window", 10))
     if o.get("fit_err"):
         return None
@@ -976,6 +1059,31 @@ def _expected_avg(o):
     return out / len(mats)
 
 
+def _check_vs_float64(c, o, site, fails):
+    """an integer panel must be treated as its numbers: same result as the same numbers stored as float64"""
+    if "f64_fit_err" not in o:
+        return
+    reg = c.get("algo") == "reg"
+    key = site + ":differs-from-float64-panel" + (":narrow-int" if c["dtype"] != "int64" else "")
+    if bool(o.get("fit_err")) != bool(o["f64_fit_err"]):
+        fails.append((key, "%s panel: fit %s; same numbers as float64: fit %s" % (c["dtype"], o.get("fit_err") or "ok", o["f64_fit_err"] or "ok")))
+        return
+    if o.get("fit_err") or o.get("member_raised"):
+        return
+    if not reg and _lab_list(o["classes"]) != _lab_list(o["f64_classes"]):
+        fails.append((key, "classes_ %r vs %r" % (o["classes"], o["f64_classes"])))
+        return
+    mine, mine_err = (o.get("pred"), o.get("pred_err")) if reg else (o.get("proba"), o.get("proba_err"))
+    if bool(mine_err) != bool(o["f64_out_err"]):
+        fails.append((key, "%s panel: %s; float64: %s" % (c["dtype"], mine_err or "ok", o["f64_out_err"] or "ok")))
+        return
+    if mine_err:
+        return
+    A, B = np.array(mine, dtype=float), np.array(o["f64_out"], dtype=float)
+    if A.shape != B.shape or not np.allclose(A, B, rtol=1e-9, atol=1e-9, equal_nan=True):
+        fails.append((key, "%s panel %r, the same numbers as float64 %r" % (c["dtype"], A.reshape(-1)[:6].tolist(), B.reshape(-1)[:6].tolist())))
+
+
 def _rk(site):
     a, _, b = site.partition(":")
     return a + ":refit-differs-from-fresh-fit" + (":" + b if b else "")
@@ -1018,6 +1126,8 @@ def oracle(c, out):
     kind = c["kind"]
     if kind in ("clf", "indiv", "colens", "tsffeat") and c.get("hist"):
         _check_refit_vs_fresh(c, o, c.get("algo", kind), fails)
+    if kind in ("clf", "indiv", "colens", "tsffeat"):
+        _check_vs_float64(c, o, c.get("algo", kind), fails)
     if kind == "feat":
         if o["err"]:
             return fails
@@ -1102,8 +1212,11 @@ def oracle(c, out):
         # own columns: what the user specified for that entry ('drop' entries and empty selections get no member)
         want = []
         for (drop, key, _) in c["entries"]:
-            k = _entry_key(key)
-            ks = k if isinstance(k, list) else [k]
+            if key[0] in ("mask", "slice"):
+                ks = _key_positions(key, o["names"])
+            else:
+                k = _entry_key(key)
+                ks = k if isinstance(k, list) else [k]
             if drop or len(ks) == 0:
                 continue
             want.append([o["names"][x] if isinstance(x, int) else x for x in ks])
@@ -1152,6 +1265,12 @@ def features(c, out):
         if _type_kind(ls[0]) == "int":
             s = sorted(set(ls))
             f.append("contiguous" if s == list(range(s[0], s[0] + len(s))) and s[0] == 0 else "non-contiguous")
+    if c.get("dtype"):
+        f.append("panel-dtype=" + c["dtype"])
+    if c.get("xform"):
+        f.append("panel-form=" + c["xform"])
+    if c.get("pred_order"):
+        f.append("predict-frame=reordered" + ("+extra" if len(c["pred_order"]) > c.get("ncol", 1) else ""))
     if c.get("hist"):
         last = set(_lab_list(c["labels"]))
         for h in c["hist"]:
@@ -1451,6 +1570,81 @@ def gen_cases(tier, rng):
         if rng.random() < 0.3:
             _add_history(rng, c, "colens")
         cases.append(c)
+    # panel number type: every classifier x dtype (narrow integer panels hold values near the type's range)
+    DT = ["float32", "int64", "int32", "int16", "uint8", "int8"]
+    for algo in ("tsf", "reg", "rise", "stsf", "boss", "cboss", "tde", "muse", "indiv", "colens"):
+        for dt in DT:
+            for rep in range(1 if q else 3):
+                if q and algo in ("boss", "cboss", "tde", "muse", "indiv", "stsf", "rise", "colens") and rng.randrange(3):
+                    continue
+                c = (_indiv_case(rng) if algo == "indiv" else _colens_case(rng) if algo == "colens" else _clf_case(rng, algo, tier))
+                if algo in ("boss", "cboss", "tde", "indiv") and c["L"] < 10:
+                    c["L"] = 10
+                c["dtype"] = dt
+                c.pop("dup", None)
+                if algo == "colens":                              # RISE members have their own integer-panel finding
+                    c["entries"] = [[d, k, ("tsf" if inner == "rise" else inner)] for (d, k, inner) in c["entries"]]
+                if algo in ("tsf", "reg", "rise", "stsf", "boss", "cboss", "indiv") and rng.random() < 0.5:
+                    c["xform"] = "np3d"
+                if algo in ("tsf", "reg") and c["L"] < 6:
+                    c["L"] = rng.choice([8, 12, 16])              # intervals of 4+ points: value * position leaves a narrow type
+                cases.append(c)
+                if algo == "tsf":
+                    c2 = dict(c, kind="tsffeat", tree=rng.randrange(c["params"]["n_estimators"]), xseed=rng.randrange(1 << 30))
+                    cases.append(c2)
+    for dt in DT:
+        for _ in range(2 if q else 20):
+            c = _feat_random(rng)
+            hi = INT_RANGES.get(dt)
+            if hi:
+                lo = 0 if dt.startswith("u") else -hi
+                c["X"] = [[rng.randrange(int(lo * 0.97), int(hi * 0.97)) if dt != "int64" else rng.randrange(-4000, 4000) for _ in r] for r in c["X"]]
+            c["dtype"] = dt
+            cases.append(c)
+    # column ensemble: specifiers by name / list of names, predict-time frame with another column order (+ an extra column);
+    # masks and slices with the training order
+    for rep in range(8 if q else 60):
+        ncol = rng.randrange(2, 5)
+        names = rng.choice([["a", "b", "c", "d"], ["x1", "temp", "hr", "z"], ["dim_0", "dim_1", "dim_2", "dim_3"]])[:ncol]
+        entries = []
+        cols = list(names); rng.shuffle(cols)
+        for i, nm in enumerate(cols[:rng.randrange(2, ncol + 1)]):
+            key = ["name", nm] if rng.random() < 0.6 else ["names", [nm]]
+            entries.append([rng.random() < 0.12, key, ["tsf", "centroid", "rise"][i % 3]])
+        if rng.random() < 0.4 and ncol >= 3:
+            entries.append([False, ["names", rng.sample(names, 2)], "centroid"])
+        if all(d for d, _, _ in entries):
+            entries[0][0] = False
+        order = list(names)
+        while order == list(names):
+            rng.shuffle(order)
+        if rng.random() < 0.4:
+            order.insert(rng.randrange(len(order) + 1), "zextra")
+        ls = rng.choice([[0, 1, 2], ["b", "a", "c"], [7, -3, 100], ["10", "9"]])
+        cases.append({"kind": "colens", "labels": [ls[i % len(ls)] for i in range(7)], "ytest": [rng.choice(ls) for _ in range(3)],
+                      "xseed": rng.randrange(1 << 30), "rs": rng.randrange(50), "L": 8, "ncol": ncol, "colnames": names,
+                      "entries": entries, "noise": 3, "pred_order": order})
+    for rep in range(4 if q else 40):
+        ncol = rng.randrange(2, 5)
+        names = ["a", "b", "c", "d"][:ncol]
+        entries = []
+        for i in range(rng.randrange(1, 4)):
+            r = rng.random()
+            if r < 0.35:
+                m = [rng.random() < 0.5 for _ in range(ncol)]
+                key = ["mask", m]; width = sum(m)
+            elif r < 0.7:
+                a = rng.randrange(0, ncol); b = rng.randrange(a + 1, ncol + 1)
+                key = ["slice", [a, b]]; width = b - a
+            else:
+                i0 = rng.randrange(ncol); i1 = rng.randrange(i0, ncol)
+                key = ["slice", [names[i0], names[i1]]]; width = i1 - i0 + 1
+            entries.append([False, key, "centroid" if width != 1 else rng.choice(["tsf", "centroid"])])
+        entries.append([False, ["name", names[0]], "tsf"])
+        ls = rng.choice([[0, 1, 2], ["b", "a"]])
+        cases.append({"kind": "colens", "labels": [ls[i % len(ls)] for i in range(6)], "ytest": [rng.choice(ls) for _ in range(2)],
+                      "xseed": rng.randrange(1 << 30), "rs": rng.randrange(50), "L": 8, "ncol": ncol, "colnames": names,
+                      "entries": entries, "noise": 3})
     # refit history, systematically: every classifier x every relation between the earlier and the last label set
     for algo in ("tsf", "rise", "stsf", "boss", "cboss", "tde", "muse", "indiv", "colens", "reg"):
         for rel in ("superset", "subset", "disjoint", "dtype", "same"):
